@@ -2,6 +2,7 @@ package main
 
 import (
 	"bytes"
+	"encoding/hex"
 	"errors"
 	"io"
 	"strconv"
@@ -29,7 +30,24 @@ type tSigner struct {
 }
 
 func (s *tSigner) Algorithm() cose.Algorithm { return s.alg }
+// nested library call made by re-entrant spies ("R" mode): a realistic signer may itself verify
+// a COSE_Sign1 token before it signs; the bytes it was handed must not change under it.
+func nestedUse() {
+	var m cose.Sign1Message
+	_ = m.UnmarshalCBOR(nestedMsg)
+	_ = m.Verify(nil, &tVerifier{alg: -7, kid: 9, mode: "T", log: &callLog{}})
+	_, _ = m.MarshalCBOR()
+}
+
+var nestedMsg = func() []byte {
+	b, _ := hex.DecodeString("d28443a10126a04a6e6573746564206d73674401020304")
+	return b
+}()
+
 func (s *tSigner) Sign(_ io.Reader, content []byte) ([]byte, error) {
+	if s.mode == "R" {
+		nestedUse()
+	}
 	s.log.tbs = append(s.log.tbs, append([]byte(nil), content...))
 	switch s.mode {
 	case "err":
@@ -51,6 +69,9 @@ type tVerifier struct {
 
 func (v *tVerifier) Algorithm() cose.Algorithm { return v.alg }
 func (v *tVerifier) Verify(content, sig []byte) error {
+	if v.mode == "R" {
+		nestedUse()
+	}
 	v.log.tbs = append(v.log.tbs, append([]byte(nil), content...))
 	switch v.mode {
 	case "err":
@@ -80,18 +101,18 @@ func parseKeySpec(s string) (kind string, alg int64, arg string) {
 
 func mkSigner(spec string, log *callLog) cose.Signer {
 	kind, alg, arg := parseKeySpec(spec)
-	if kind == "T" {
+	if kind == "T" || kind == "R" {
 		k, _ := strconv.Atoi(arg)
-		return &tSigner{alg: cose.Algorithm(alg), kid: byte(k), mode: "T", log: log}
+		return &tSigner{alg: cose.Algorithm(alg), kid: byte(k), mode: kind, log: log}
 	}
 	return &tSigner{alg: cose.Algorithm(alg), mode: arg, log: log}
 }
 
 func mkVerifier(spec string, log *callLog) cose.Verifier {
 	kind, alg, arg := parseKeySpec(spec)
-	if kind == "T" {
+	if kind == "T" || kind == "R" {
 		k, _ := strconv.Atoi(arg)
-		return &tVerifier{alg: cose.Algorithm(alg), kid: byte(k), mode: "T", log: log}
+		return &tVerifier{alg: cose.Algorithm(alg), kid: byte(k), mode: kind, log: log}
 	}
 	return &tVerifier{alg: cose.Algorithm(alg), mode: arg, log: log}
 }
